@@ -96,6 +96,26 @@ func C17(c *Ctx) {
 		lockCompare(c, r1, fn, Calls(fn, false, Named("raftstore/kv.collectVisibleValue")))
 	}
 
+	const r1b = "K1.scan-sees-locks-without-write-record"
+	c.Rule(r1b, "raftstore/kv handleScan also examines the lock column: the entries of kv.CFLock met by the iterator (they sort before the write column) are collected and each collected key inside the range is checked with Reader.GetLock against readTs, so a prewritten key that has no write record yet blocks the scan like any other locked key")
+	if fn := c.Fn("raftstore/kv", "handleScan"); fn != nil {
+		cfLock := cfValue(c, "CFLock")
+		seesLockCF := false
+		AllInstrs(fn, true, func(in ssa.Instruction) {
+			bo, ok := in.(*ssa.BinOp)
+			if !ok || (bo.Op != token.EQL && bo.Op != token.NEQ) {
+				return
+			}
+			if k, ok := ConstInt(bo.Y); ok && k == cfLock && isFieldLoad(bo.X, "kv.Entry", "CF") {
+				seesLockCF = true
+			}
+		})
+		// a GetLock whose key does not come from a write-column entry: inside a helper/closure taking
+		// the key as a parameter, or at least two GetLock sites
+		gl := Calls(fn, true, Named("percolator.(*Reader).GetLock"))
+		c.Decide(seesLockCF && len(gl) >= 2, r1b, key(fn, "examines:CFLock"), fn.Pos(), len(gl)+1, "lock-column entries are collected and checked", "handleScan only visits write-column entries: a key that is prewritten but has no write record yet is skipped silently (Get reports it locked, Scan does not), and the same scan returns it after the pending transaction commits")
+	}
+
 	const r2 = "K5.non-data-kinds-skipped"
 	c.Rule(r2, "version selection skips non-data records: in Reader.getWriteForRead's callback and in collectVisibleValue the kinds Rollback and Lock continue with the next older record (they never become the result), Delete is terminal (not found) and Put yields the value; both selectors agree per kind; selection takes the greatest commit ts <= readTs")
 	ops := opConsts(c)
